@@ -100,7 +100,22 @@ SAN_PATTERNS = [
 ]
 
 
+ALIASING = re.compile(r"retag|borrow stack|Tree Borrows|is forbidden|protected tag|reborrow")
+
+
 def run_shard(job, shard, seed, tier):
+    """Run one shard. A Miri diagnostic that only the experimental aliasing model (Stacked/Tree Borrows) raises is not
+    something any property states: the shard is run again with the aliasing model off to obtain the verdict for the
+    stated property, and the diagnostic is kept as an informational note (DESIGN 3.2)."""
+    r = run_shard_once(job, shard, seed, tier, None)
+    if job["mode"] == "miri" and r["result"] is None and r["reports"] and all(x["tool"] == "miri" and ALIASING.search(x["what"]) for x in r["reports"]):
+        note = r["reports"][0]["what"]
+        r = run_shard_once(job, shard, seed, tier, "-Zmiri-disable-stacked-borrows")
+        r["aliasing_notes"] = [note]
+    return r
+
+
+def run_shard_once(job, shard, seed, tier, extra_miri):
     mode = job["mode"]
     argv = [job["cmd"]] + [a.format(seed=seed, shard=shard, nshards=job["shards"], tier=tier) for a in job["args"]]
     argv += ["--seed", str(seed), "--shard", str(shard), "--nshards", str(job["shards"])]
@@ -112,8 +127,8 @@ def run_shard(job, shard, seed, tier):
     env.update(env_extra)
     if mode == "asan" and job.get("asan_options"):
         env["ASAN_OPTIONS"] = job["asan_options"]
-    if mode == "miri" and job.get("miri_flags"):
-        env["MIRIFLAGS"] = MIRI_FLAGS + " " + job["miri_flags"]
+    if mode == "miri" and (job.get("miri_flags") or extra_miri):
+        env["MIRIFLAGS"] = " ".join(x for x in [MIRI_FLAGS, job.get("miri_flags"), extra_miri] if x)
     timeout = job.get("watchdog", {"quick": 900, "thorough": 7200})[tier]
     t0 = time.time()
     try:
@@ -197,7 +212,9 @@ def merge(prop, tier, seed, t0, results):
     inconclusive = []
     gate_broken = 0
     san_reports = 0
+    aliasing_notes = []
     for r in results:
+        aliasing_notes += r.get("aliasing_notes", [])
         job, res = r["job"], r["result"]
         tag = "%s:%s" % (r["mode"], job["cmd"])
         pm = per_mode.setdefault(tag, {"shards": 0, "events": 0, "evaluations": 0, "wall_s": 0.0})
@@ -266,7 +283,7 @@ def merge(prop, tier, seed, t0, results):
             if p2 != prop:
                 other[p2] = other.get(p2, 0) + n
     cov = {"evaluations": evals, "distinct": distinct, "counters": counters, "maxima": maxima, "per_mode": per_mode, "samples": samples,
-           "gate_broken_histories": gate_broken, "other_properties_observed": other, "sanitizer_reports": san_reports}
+           "gate_broken_histories": gate_broken, "other_properties_observed": other, "sanitizer_reports": san_reports, "aliasing_notes": aliasing_notes}
     reason = "; ".join(inconclusive[:3]) if inconclusive else None
     return finish(prop, tier, seed, t0, cov, violations, list(known_hits.values()), reason, results)
 
@@ -302,7 +319,7 @@ def finish(prop, tier, seed, t0, cov, violations, known_hits, reason, results):
     verdict = "held"
     replay_paths = []
     if cov is None:
-        cov = {"evaluations": 0, "distinct": set(), "counters": {}, "maxima": {}, "per_mode": {}, "samples": [], "gate_broken_histories": 0, "other_properties_observed": {}, "sanitizer_reports": 0}
+        cov = {"evaluations": 0, "distinct": set(), "counters": {}, "maxima": {}, "per_mode": {}, "samples": [], "gate_broken_histories": 0, "other_properties_observed": {}, "sanitizer_reports": 0, "aliasing_notes": []}
     floors, unmet = check_floors(prop, tier, cov)
     for k in known_hits:
         print("KNOWN-FINDING: property=%s %s" % (prop, k["what"]))
@@ -340,6 +357,7 @@ def finish(prop, tier, seed, t0, cov, violations, known_hits, reason, results):
         "gate_broken_histories": cov["gate_broken_histories"],
         "other_properties_observed": cov["other_properties_observed"],
         "known_findings_hit": [k["id"] for k in known_hits],
+        "aliasing_model_diagnostics_informational": sorted(set(cov.get("aliasing_notes", [])))[:5],
         "replays": replay_paths,
     }
     if level == "other":
@@ -380,6 +398,12 @@ def replay(path):
         with open(fn, "w") as fh:
             fh.write(rec["cfg"] + "\n" + "\n".join(rec["ops"]) + "\n")
         argv = ["replay", "--file", fn]
+    elif rec.get("kind") == "inject":
+        os.makedirs(WORK, exist_ok=True)
+        fn = os.path.join(WORK, "replay-%d.txt" % os.getpid())
+        with open(fn, "w") as fh:
+            fh.write(rec["cfg"] + "\n" + "inject %s %d %d\n" % (rec["inject_class"], rec["inject_n"], rec["failing_event"]) + "\n".join(rec["ops"]) + "\n")
+        argv = ["replay_inject", "--file", fn]
     else:
         argv = rec["argv"]
     job = {"mode": mode, "cmd": argv[0], "args": argv[1:], "shards": 1, "budget": None}
